@@ -285,6 +285,26 @@ impl<S: RecvStream, B> RecvStream for BufRecvStream<S, B> {
     { unimplemented!() }
 }
 
+// ------------------------------------------------------------------ frame types taken from /repo
+//@extract h3/src/proto/push.rs :: - :: struct PushId
+//@attr #[derive(Clone, Copy)]
+//@end
+//@extract h3/src/proto/push.rs :: - :: struct InvalidPushId
+//@end
+//@extract h3/src/proto/stream.rs :: - :: struct InvalidStreamId
+//@end
+//@extract h3/src/proto/stream.rs :: - :: struct StreamId
+//@attr #[derive(Clone, Copy, PartialEq, Eq, Hash)]
+//@end
+//@extract h3/src/proto/frame.rs :: - :: struct PayloadLen
+//@end
+//@extract h3/src/proto/frame.rs :: - :: struct PushPromise
+//@end
+//@extract h3/src/proto/frame.rs :: - :: enum Frame
+//@end
+// opaque here (their codecs are C13's): SETTINGS payload and its errors
+#[verifier::external_body] pub struct Settings { x: u8 }
+#[verifier::external_body] pub struct SettingsError { x: u8 }
 // ------------------------------------------------------------------ shim: FrameStream (unit frames)
 #[verifier::external_body] pub struct FrameDecoder { x: u8 }
 //@extract h3/src/frame.rs :: - :: struct FrameStream
@@ -292,9 +312,9 @@ impl<S: RecvStream, B> RecvStream for BufRecvStream<S, B> {
 //@attr #[verifier::reject_recursive_types(B)]
 //@end
 impl<S, B> FrameStream<S, B> {
-    /// ghost: number of frames `poll_next` has handed out on this stream so far (DESIGN §7c `taken`; the sequence
-    /// itself is not needed by any clause, its length is)
-    pub uninterp spec fn taken(&self) -> nat;
+    /// ghost: the frames `poll_next` has handed out on this stream so far, in order (DESIGN §7c `taken`)
+    pub uninterp spec fn taken_seq(&self) -> Seq<Frame<PayloadLen>>;
+    pub open spec fn taken(&self) -> nat { self.taken_seq().len() }
     /// ghost: number of `poll_next` calls made on this stream
     pub uninterp spec fn polls(&self) -> nat;
     // ASSUMED-FROM-UNIT: frames FrameStream::new
@@ -303,7 +323,7 @@ impl<S, B> FrameStream<S, B> {
 //@attr #[verifier::external_body]
 //@ret r
 //@sig
-        ensures r.stream == stream, r.remaining_data == 0, r.taken() == 0, r.polls() == 0,
+        ensures r.stream == stream, r.remaining_data == 0, r.taken_seq() == Seq::<Frame<PayloadLen>>::empty(), r.polls() == 0,
 //@end
 }
 
